@@ -251,6 +251,14 @@ def gen_case(rng, pid, tier):
         ts = rrng.choice([o[3].split(',')[1] for o in ops if o[0] == 'ev' and o[3].startswith(inst + ',')])
         ops.insert(1, ['ev', 'a', shard_of(inst), '%s,%s,%s' % (inst, ts, rrng.choice(['h1,pending,a,b', 'h1,pending']))])
 
+    if with_events and rrng.random() < 0.2:
+        # same timestamp string, sources 'h1' / 'h1#x': as TUPLES 'h1' sorts first, as whole names
+        # ('h1,' vs 'h1#') second - and same-timestamp events are the ones the dedup can repeat
+        inst = rrng.choice(with_events)
+        ts = rrng.choice([o[3].split(',')[1] for o in ops if o[0] == 'ev' and o[3].startswith(inst + ',')])
+        for src in ('h1', 'h1#x'):
+            ops.insert(1, ['ev', 'a', shard_of(inst), '%s,%s,%s,pending,x' % (inst, ts, src)])
+
     def read_app():
         pool = with_events if with_events and rrng.random() < 0.8 else insts
         return ['read', 'a', rrng.choice(pool), oseed()]
